@@ -346,7 +346,10 @@ class SpectralMixtureKernel(Kernel):
         # Product over dimensions
         if last_dim_is_batch:
             # Put feature-dimension in front of data1/data2 dimensions
-            res = res.permute(*list(range(0, res.dim() - 3)), -1, -3, -2)
+            if diag:
+                res = res.transpose(-1, -2)  # ... x n x d -> ... x d x n
+            else:
+                res = res.permute(*list(range(0, res.dim() - 3)), -1, -3, -2)
         else:
             res = res.prod(-1)
 
